@@ -77,6 +77,20 @@ fn scenarios(thorough: bool) -> Vec<Scn> {
                 Req { tag: 3, side: 1, host: vec![0x00, 0xff, b'/', b':'], port: 1 },
             ],
         },
+        // a Connect's host has no length octet: it runs to the end of the frame and may be longer than the 255 octets
+        // the Bind and Datagram layouts can carry
+        Scn {
+            acceptors: 1,
+            name: "hosts longer than 255 octets",
+            rng: [vec![], vec![]],
+            retries: 3,
+            rwnd: [2, 1],
+            reqs: vec![
+                Req { tag: 1, side: 0, host: (0..256u32).map(|i| i as u8).collect(), port: 443 },
+                Req { tag: 2, side: 0, host: (0..300u32).map(|i| (i % 7) as u8 | 0x40).collect(), port: 0 },
+                Req { tag: 3, side: 1, host: (0..65_541u32).map(|i| (i % 251) as u8).collect(), port: 65535 },
+            ],
+        },
     ];
     for retries in if thorough { vec![1usize, 2, 3] } else { vec![1usize, 3] } {
         v.push(Scn {
@@ -586,7 +600,7 @@ pub fn run(args: &Args) -> Report {
         adaptive: thorough,
         witness_names: &[("zero_draw_skipped", W_ZERO_SKIPPED), ("live_id_draw_skipped", W_LIVE_SKIPPED), ("id_collision_and_retry", W_COLLISION), ("gave_up_with_FlowIdRejected", W_REJECTED_GAVE_UP), ("retry_succeeded", W_RETRY_SUCCEEDED), ("all_requests_paired", W_ALL_PAIRED), ("peer_reopened_the_id_it_rejected", W_PEER_REOPENED_REJECTED_ID)],
     };
-    rep.rule = "psim: two real endpoints with scripted flow-id generators (first draw 0, draw of a live id, identical draws on both sides, repeated collisions; plus EVERY draw script of length 4 (thorough 5) over {0,1,2} for two simultaneous opens on one side against an opener drawing 1,2 on the other, and every script of length 3 over {0,4,5} against the raw peer), concurrent opens from both sides, hosts {empty, 255 bytes >= 0x80, binary} and ports {0,1,65535}, every schedule <= k deviations; plus a raw peer rejecting 0..3 proposals then accepting/silent (also: opening its own stream on the id right behind its first rejection, which must work like any other stream), for max_flow_id_retries 1..3. Oracle: successful requests pair 1:1 with accepted streams carrying exactly the requested host/port and tagged data end to end; send credit at hand-out equals the other side's window (hook); no Connect with id 0 / a live id on the wire; failures only as FlowIdRejected after exactly max_flow_id_retries Connects; nothing pending, tables empty at the end".into();
+    rep.rule = "psim: two real endpoints with scripted flow-id generators (first draw 0, draw of a live id, identical draws on both sides, repeated collisions; plus EVERY draw script of length 4 (thorough 5) over {0,1,2} for two simultaneous opens on one side against an opener drawing 1,2 on the other, and every script of length 3 over {0,4,5} against the raw peer), concurrent opens from both sides, hosts {empty, 255 bytes >= 0x80, binary, 256 / 300 / 65541 bytes} and ports {0,1,65535}, every schedule <= k deviations; plus a raw peer rejecting 0..3 proposals then accepting/silent (also: opening its own stream on the id right behind its first rejection, which must work like any other stream), for max_flow_id_retries 1..3. Oracle: successful requests pair 1:1 with accepted streams carrying exactly the requested host/port and tagged data end to end; send credit at hand-out equals the other side's window (hook); no Connect with id 0 / a live id on the wire; failures only as FlowIdRejected after exactly max_flow_id_retries Connects; nothing pending, tables empty at the end".into();
     rep.assumptions = vec!["allocation races inside one poll (two threads in insert_new_flow) are not visible at poll granularity; they are covered by the loom model m7 (run by this check as well)".into()];
     run_cases(args, &mut rep, cases, &plan);
     rep
